@@ -282,7 +282,7 @@ CHECKS["C23"] = dict(
     technique="history monitor at the RPC boundary: for every node-funded wallet command (send <amount>, mint, send/burn <runes>, split, offer create) run by the real command line on generated wallets whose inscribed and runic outputs are the largest ones, the recorded lockunspent / fundrawtransaction / sendrawtransaction calls and the node's mempool are checked: all non-cardinal wallet outputs locked (or own inputs) before funding, no input added by the node and no broadcast input is inscribed or runic",
     level_text="Exploration over wallet states x commands: each generated wallet (2-5 cardinals of 30k-200k sat, 1-3 inscribed outputs and 1-6 runic outputs of 1-50 M sat, one or two runes, optionally both runes in one output, a mintable rune, a foreign inscription to bid for, with/without sat and address index) receives every applicable command in random order; tens of wallets and about 10^2 commands per quick run.",
     rule="protected = wallet outputs that the index lists with inscriptions or rune balances (hook H2) just before the command; per command: (a) at each fundrawtransaction call every protected output is in an earlier lockunspent(false, ..) of this command or an input of the unfunded transaction; (b) funded inputs minus unfunded inputs contain no protected output; (c) no protected output other than the command's own inputs is spent by a transaction passed to sendrawtransaction or found in the mempool. distinct = wallet shape tuples.",
-    floors={"evaluations": 40, "wallets": 8, "fundrawtransaction_calls": 40, "lockunspent_calls": 40, "fund_calls_with_all_non_cardinals_locked": 40, "inputs_added_by_node": 20, "funded_send-amount": 3, "funded_mint": 2, "funded_send-runes": 3, "funded_burn-runes": 3, "funded_split": 2, "funded_offer-create": 3},
+    floors={"evaluations": 40, "wallets": 8, "fundrawtransaction_calls": 40, "lockunspent_calls": 40, "fund_calls_with_all_non_cardinals_locked": 40, "inputs_added_by_node": 20, "funded_send-amount": 3, "funded_mint": 2, "funded_send-runes": 3, "funded_burn-runes": 3, "funded_split": 2, "funded_offer-create": 3, "wallets_on_a_server_without_inscription_index": 2},
     shards_quick=16, budget_quick=45, shards_thorough=16, budget_thorough=480, release_pass=False, miri=False,
     assumptions=WALLET_ASSUME, crash_is_violation=True)
 
@@ -291,7 +291,7 @@ CHECKS["C21"] = dict(
     technique="cross-component differential monitor: the real `ord wallet batch` runs on generated batch files and wallets; the harness mines the commit and reveal transactions it broadcast, the real indexer processes them, and the command's JSON report is compared with the index (ids, satpoints, destination scripts, recorded parents, fees) and with the set of inscribed / runic wallet outputs before the command",
     level_text="Exploration over batch descriptions x wallet states: four modes (separate-outputs, shared-output, same-sat with and without an explicit satpoint, satpoints) x 1-7 inscriptions x 0-2 parents x postage {none, 546 .. 20000} x per-inscription destinations (wallet / foreign / default) x metadata / metaprotocol / delegate / title+traits x fee rates x --compress, on wallets with 4-8 cardinals, 1-3 inscribed outputs and a runic output, with and without a sat index; several batches in a row per wallet (outputs of earlier batches become parents). About 10^2 batches per quick run." + " One batch in four also etches a rune (13-16 letters, optional spacer, divisibility 0-3, premine incl. 0, optional terms): a miner thread confirms the commit while the command waits for maturation.",
     rule="for every successful command: the indexer created exactly the reported ids (reveal txid, consecutive indices); each is at the reported satpoint, in an output paying the reported destination (= the batch file's destination when given), records exactly the batch file's parents, and is not unbound / lost / burned; reported parents = batch file parents and each parent ends in an output paying a wallet address; commit and reveal spend no inscribed or runic wallet output other than the parents (reveal); reported total_fees = inputs - outputs of both transactions; an etching in the batch file creates the named rune (etching = reveal txid, premine and divisibility as given) with the premine at the reported location in an output paying the reported wallet address. A failed command must leave nothing in the mempool. distinct = (mode, inscriptions, parents, postage, sat index).",
-    floors={"evaluations": 40, "wallets": 8, "batches_ok": 30, "batches_ok_separate-outputs": 4, "batches_ok_shared-output": 4, "batches_ok_same-sat": 4, "batches_ok_satpoints": 3, "batches_ok_with_parents": 10, "batches_ok_with_postage": 5, "batches_ok_with_destinations": 4, "batches_ok_with_etching": 5, "inscriptions_created_and_compared": 80},
+    floors={"evaluations": 40, "wallets": 8, "batches_ok": 30, "batches_ok_separate-outputs": 4, "batches_ok_shared-output": 4, "batches_ok_same-sat": 4, "batches_ok_satpoints": 3, "batches_ok_with_parents": 10, "batches_ok_with_postage": 5, "batches_ok_with_destinations": 4, "batches_ok_with_etching": 5, "inscriptions_created_and_compared": 80, "wallets_with_fragmented_cardinals": 3},
     shards_quick=16, budget_quick=50, shards_thorough=16, budget_thorough=480, release_pass=False, miri=False,
     assumptions=WALLET_ASSUME, crash_is_violation=True)
 
